@@ -115,14 +115,17 @@ func (p *Processor) Run(ctx context.Context) error {
 					continue
 				}
 
+				// A segment that cannot be processed must stop the partition for this
+				// cycle: later segments would commit a checkpoint past its records and
+				// filterRecords would then drop them forever.
 				state, err := p.store.LoadOffset(ctx, seg.Topic, seg.Partition)
 				if err != nil {
-					continue
+					break
 				}
 
 				batches, err := p.decode.Decode(ctx, seg.SegmentKey, seg.IndexKey)
 				if err != nil {
-					continue
+					break
 				}
 
 				records := mapBatches(batches)
@@ -141,7 +144,7 @@ func (p *Processor) Run(ctx context.Context) error {
 				err = p.sink.Write(ctx, records)
 				unlock()
 				if err != nil {
-					continue
+					break
 				}
 
 				last := records[len(records)-1]
